@@ -14,7 +14,7 @@ from .verify import verify_function
 
 def load_contracts():
     for m in ("rounding", "units", "quantity_ops", "term", "registry",
-              "unit_ops", "qty_mul", "converter", "hashing", "money", "declare",
+              "unit_ops", "qty_mul", "converter", "hashing", "money", "declare", "money_decl",
               "term_impl"):
         try:
             importlib.import_module("contracts." + m)
